@@ -591,6 +591,36 @@ theorem plain_link_is_not_inline (r : Rec) (u : Info) (path : List LinkStep) (s 
   rw [httpRecordAlong_append]
   simp [httpChildRecord, hs, truthy]
 
+/-! ### `--sitemaps`: the site files are links of the start page -/
+
+/-- **the URLs `--sitemaps` derives carry the link record of the page they were derived from**: one link
+below the item, the item as parent, the item's root (or the item) as root, not a requisite. -/
+theorem extra_urls_are_children (sitemaps : Bool) (r : Rec) (item rb sm : Info) :
+    ∀ p ∈ addExtraUrls sitemaps r item rb sm,
+      p.1.level = r.level + 1 ∧ p.1.parent = some item ∧ p.1.inlineLevel = none ∧
+      p.1.root = (match r.root with | some t => some t | none => some item) ∧ (p.2 = rb ∨ p.2 = sm) := by
+  intro p hp
+  unfold addExtraUrls at hp
+  split at hp
+  · simp at hp
+    rcases hp with rfl | rfl <;> simp [httpChildRecord] <;> cases r.root <;> rfl
+  · simp at hp
+
+/-- ... so without `--recursive` they are never requested (whatever the other options; not even as a
+redirect target), and `--no-parent` measures them against the start URL, not against themselves. -/
+theorem extra_urls_need_recursion (o : Oracles) (fs : List Filter) (pq : Bool) (sitemaps : Bool)
+    (r : Rec) (item rb sm : Info) (hrec : Filter.recursive false pq ∈ fs) :
+    ∀ p ∈ addExtraUrls sitemaps r item rb sm, ∀ v red, consultOk o fs v p.1 red = false := by
+  intro p hp v red
+  obtain ⟨hl, _, hi, _, _⟩ := extra_urls_are_children sitemaps r item rb sm p hp
+  cases hc : consultOk o fs v p.1 red with
+  | false => rfl
+  | true =>
+    have hfail : (Filter.recursive false pq).test o v p.1 = false := by
+      simp [Filter.test, hl, hi, truthy]
+    have := (waiver_others_pass o fs v p.1 red hc _ hrec hfail).2
+    simp [Filter.isSpanHosts] at this
+
 /-! ### comma separated option values -/
 
 theorem head_dropWhile_not {α} (p : α → Bool) (l : List α) (a : α)
@@ -735,5 +765,8 @@ example : commaList (lit "") = [] := by decide
 -- a listed directory covers its tree (the fnmatch oracle sees the pattern with `*` appended)
 example : isSubdir ⟨fun _ _ => false, fun n p => n == lit "/private/sub/x/" && p == lit "/private/*", fun _ _ => false⟩
     (lit "/private") (lit "/private/sub/x") false true = true := by decide
+-- --sitemaps without -r: the two site files are queued one link below the start page and then refused
+example : (addExtraUrls true r0 uA uB uA).map (fun p => (p.1.level, consultOk o0 fs0 p.2 p.1 false)) = [(1, false), (1, false)] := by
+  decide
 
 end Wpull.Filter
